@@ -220,3 +220,85 @@ def decode_text(octets, data_coding):
     if data_coding == 3:
         return bytes(octets).decode('latin-1')
     raise AssertionError(f'data_coding {data_coding} not handled by the reference receiver')
+
+
+# ---- reference encoders used by the C04 oracle (independent of aiosmpplib) ----
+def gsm_encode(text):
+    """one octet per septet (unpacked, as SMPP carries the default alphabet); None if a character is outside the alphabet"""
+    enc = {c: i for i, c in enumerate(GSM_BASIC) if i != 0x1B}
+    ext = {c: k for k, c in GSM_EXT.items()}
+    out = bytearray()
+    for ch in text:
+        if ch in enc:
+            out.append(enc[ch])
+        elif ch in ext:
+            out += bytes([0x1B, ext[ch]])
+        else:
+            return None
+    return bytes(out)
+
+
+DATA_CODING = {'gsm0338': 0, 'ascii': 1, 'latin_1': 3, 'ucs2': 8}
+
+
+def text_encode(text, alphabet):
+    """bytes of `text` in the named alphabet, or None when it cannot be represented"""
+    try:
+        if alphabet == 'gsm0338':
+            return gsm_encode(text)
+        if alphabet == 'ucs2':
+            return text.encode('utf-16-be')
+        if alphabet == 'ascii':
+            return text.encode('ascii')
+        if alphabet == 'latin_1':
+            return text.encode('latin-1')
+    except UnicodeError:
+        return None
+    raise AssertionError(alphabet)
+
+
+def text_decode(octets, data_coding, default='gsm0338'):
+    """what a conformant receiver configured with `default` for data_coding 0 reads"""
+    name = {0: default, 1: 'ascii', 3: 'latin_1', 8: 'ucs2'}[data_coding]
+    if name == 'gsm0338':
+        return gsm_decode(octets)
+    if name == 'ucs2':
+        return bytes(octets).decode('utf-16-be')
+    return bytes(octets).decode({'ascii': 'ascii', 'latin_1': 'latin-1'}[name])
+
+
+def smpp_time(t):
+    """SMPP 3.4 section 7.1: absolute 'YYMMDDhhmmsstnnp' / relative 'YYMMDDhhmmss000R' (a year = 365 days, a month = 30 days)"""
+    from datetime import datetime
+    if t is None:
+        return b''
+    if isinstance(t, datetime):
+        off = t.utcoffset()
+        secs = 0 if off is None else off.days * 86400 + off.seconds
+        q, p = abs(secs) // 900, ('+' if secs >= 0 else '-')
+        return ('%02d%02d%02d%02d%02d%02d%d%02d%s' % (t.year % 100, t.month, t.day, t.hour, t.minute, t.second,
+                                                      t.microsecond // 100000, q, p)).encode()
+    days, secs = t.days, t.seconds
+    y, r = divmod(days, 365)
+    mo, d = divmod(r, 30)
+    return ('%02d%02d%02d%02d%02d%02d000R' % (y, mo, d, secs // 3600, secs % 3600 // 60, secs % 60)).encode()
+
+
+def ref_tlv(tag, value):
+    """TLV octets for an application-level value per the section 5.3.2 table; unknown tags are octet strings"""
+    _name, kind, size = TLV.get(tag, ('vendor', 'ostr', None))
+    if kind == 'int':
+        return tlv(tag, int(value).to_bytes(size, 'big'))
+    if kind == 'cstr':
+        return tlv(tag, value.encode('ascii') + b'\x00')
+    if kind == 'ostr':
+        return tlv(tag, value.encode('ascii'))
+    return tlv(tag, b'') if value else b''
+
+
+def udh8(ref, total, seq):
+    return bytes([5, 0, 3, ref, total, seq])
+
+
+def udh16(ref, total, seq):
+    return bytes([6, 8, 4, ref >> 8, ref & 0xFF, total, seq])
